@@ -52,7 +52,7 @@ theorem encodeLong_spec (x : BitVec 64) :
         simp only [zzEnc, W_ZZ_SHL, W_ZZ_SAR]
         have : x.sshiftRight 63 = BitVec.allOnes 64 := by
           have : x.msb = true := hm
-          bv_decide
+          bv_decide (config := { timeout := 300 })
         rw [this, BitVec.xor_allOnes]
       rw [if_neg h, he, hx]
       simp only [BitVec.toNat_not, BitVec.toNat_shiftLeft, Nat.shiftLeft_eq]
